@@ -262,6 +262,20 @@ func runRegistry(t *simrt.Tape, rc *RunCtx) *Violation {
 type vhashA struct{ hash.Hash64 }
 type vhashB struct{ hash.Hash64 }
 
+// yieldHash64 is FNV-1a behind a user type that yields in Write ("randomized
+// yields in user callbacks"): two sketches that shared one instance of it
+// would hash the concatenation of each other's items.
+type yieldHash64 struct{ hash.Hash64 }
+
+func (y yieldHash64) Write(p []byte) (int, error) {
+	simrt.Yield()
+	n, err := y.Hash64.Write(p)
+	simrt.Yield()
+	return n, err
+}
+
+func newYieldHash64() hash.Hash64 { return yieldHash64{fnv.New64a()} }
+
 // constSource is a stateless rand.Source: safe to share between goroutines,
 // and every draw from a distribution that uses it is the same value, so that
 // samples drawn concurrently can be compared bit for bit with a serial one.
@@ -357,6 +371,7 @@ func runWishart(t *simrt.Tape, rc *RunCtx) *Violation {
 	rc.Instance["policy"] = cfg.Policy.String()
 	means := make([]mat.SymDense, nclients)
 	lps := make([]float64, nclients)
+	restoredCounts := make([]float64, nclients)
 	out, viol := rc.Sim(prop, t, cfg, func() {
 		var wg simrt.WaitGroup
 		work := func(c int) {
@@ -381,6 +396,20 @@ func runWishart(t *simrt.Tape, rc *RunCtx) *Violation {
 			if err := h.UnmarshalBinary(b); err != nil {
 				simrt.Fail("registry-hash: decoding into a sketch without a hash failed right after RegisterHash returned: " + err.Error())
 			}
+			// sketches restored through the registry are independent objects:
+			// every client feeds its own one, through a user hash that yields
+			// in Write, and must count what it would count alone
+			card.RegisterHash(newYieldHash64)
+			empty, _ := card.NewHyperLogLog64(5, newYieldHash64())
+			eb, _ := empty.MarshalBinary()
+			var mine card.HyperLogLog64
+			if err := mine.UnmarshalBinary(eb); err != nil {
+				simrt.Fail("registry-hash: decoding a sketch with a registered user hash failed: " + err.Error())
+			}
+			for k := 0; k < 8; k++ {
+				mine.Write([]byte{byte(c), byte(k), 0x5a})
+			}
+			restoredCounts[c] = mine.Count()
 		}
 		for c := 1; c < nclients; c++ {
 			c := c
@@ -411,6 +440,15 @@ func runWishart(t *simrt.Tape, rc *RunCtx) *Violation {
 					}
 				}
 			}
+		}
+	}
+	for c := 0; c < nclients; c++ {
+		alone, _ := card.NewHyperLogLog64(5, fnv.New64a())
+		for k := 0; k < 8; k++ {
+			alone.Write([]byte{byte(c), byte(k), 0x5a})
+		}
+		if math.Float64bits(restoredCounts[c]) != math.Float64bits(alone.Count()) {
+			return &Violation{prop, "registry/restored-sketch-differs", fmt.Sprintf("client %d: a sketch restored through the hash registry and fed 8 items counts %v while %d other clients feed theirs; alone it counts %v", c, restoredCounts[c], nclients-1, alone.Count())}
 		}
 	}
 	for c := 0; c < nclients; c++ {
